@@ -642,6 +642,17 @@ func (e *Engine) trCall(env *SpecEnv, n SCall) Val {
 		}
 		_, ub := e.boxFns(t)
 		return Val{T: "(" + ub + " " + x.T + ")", S: e.sortOf(t), GoT: t}
+	case "matches":
+		// matches(s, "regex"): s is matched by the Go regular expression literal (translated to an SMT regular expression)
+		lit, ok := n.Args[1].(SStr)
+		if !ok {
+			e.specFail(env, "matches(s, \"literal\")")
+		}
+		smt, ok := regexMatchSMT(lit.V)
+		if !ok {
+			e.specFail(env, "regular expression not translatable: "+lit.V)
+		}
+		return boolVal("(str.in_re " + arg(0).T + " " + smt + ")")
 	case "bigOf":
 		return intVal(sel(e.heapIn(env.st, "BIGVAL", "(Array Int Int)"), arg(0).T))
 	case "arrayOf":
